@@ -453,6 +453,11 @@ def delta(exp, act, scope_names):
   """'same' | 'swap' | 'other' between an expected and an actual AST."""
   if type(exp) is not type(act):
     # a value replaced by a literal constant / empty container is a point edit, not a restructuring
+    # the resolved local / parameter `x` replaced by the raw attribute `self.x` (or the other way round)
+    if isinstance(exp, ast.Name) and isinstance(act, ast.Attribute) and act.attr == exp.id and isinstance(act.value, ast.Name) and act.value.id == 'self' and exp.id in scope_names:
+      return 'swap'
+    if isinstance(act, ast.Name) and isinstance(exp, ast.Attribute) and exp.attr == act.id and isinstance(exp.value, ast.Name) and exp.value.id == 'self' and act.id in scope_names:
+      return 'swap'
     if isinstance(exp, (ast.Name, ast.Attribute, ast.Call)) and (isinstance(act, ast.Constant) or (isinstance(act, (ast.Tuple, ast.List)) and not act.elts) or (isinstance(act, ast.Dict) and not act.keys)):
       return 'swap'
     return 'other'
@@ -590,14 +595,37 @@ def judge_call_args(R, repo, f, call, expected_pos, key, where, msg, forwarded_k
     judge_forward(R, repo, f, call, list(forwarded_kw), key, msg)
 
 
-def reach_env(c, env, flags_func=None):
-  """Reachability from entry under an assumption `env` ({source text or name: bool}) about the values tested.
+def _residual(test, env):
+  """Partial evaluation of a condition under env: True / False / list of undecided operand expressions (a conjunction
+  or a disjunction of them, second component tells which)."""
+  try:
+    return bool_eval(test, env), None
+  except Unsupported:
+    pass
+  if isinstance(test, ast.BoolOp):
+    rest = []
+    for v in test.values:
+      r, _ = _residual(v, env)
+      if r is True and isinstance(test.op, ast.And):
+        continue
+      if r is False and isinstance(test.op, ast.Or):
+        continue
+      if isinstance(r, bool):
+        return r, None     # And with a False operand / Or with a True operand (already handled by bool_eval, kept for safety)
+      rest += r
+    return rest, type(test.op).__name__
+  if isinstance(test, ast.UnaryOp) and isinstance(test.op, ast.Not):
+    r, k = _residual(test.operand, env)
+    if isinstance(r, bool):
+      return (not r), None
+    return r, k
+  return [test], None
 
-  Returns (may, must): `may` = nodes reachable when only the edges contradicting env are removed; `must` = nodes reachable
-  when, in addition, tests that talk about the assumed quantities but cannot be evaluated are not crossed at all (tests
-  about unrelated quantities are free: either branch can happen).  A node in `must` is reached in some execution that
-  satisfies the assumption: positive evidence."""
-  cut, unknown = [], []
+
+def env_edges(c, env, flags_func=None):
+  """(cut, blocked): CFG edges contradicting the assumption `env`, and edges out of tests whose undecided part still
+  talks about the assumed quantities (so neither branch can be claimed to be taken)."""
+  cut, blocked = [], []
   env_names = set()
   for k in env:
     try:
@@ -608,17 +636,38 @@ def reach_env(c, env, flags_func=None):
   for n in c.nodes:
     if n.kind in ('if', 'while') and n.ast is not None:
       test = _subst_flags(n.ast, flags_func or c.func)
-      try:
-        v = bool_eval(test, env)
-      except Unsupported:
-        mentioned = {x.id for x in ast.walk(test) if isinstance(x, ast.Name)} | {x.attr for x in ast.walk(test) if isinstance(x, ast.Attribute)}
-        if mentioned & env_names:
-          unknown += [(n, m, l) for m, l in c.succ[n] if l in ('T', 'F')]
+      r, _ = _residual(test, env)
+      if isinstance(r, bool):
+        cut += [(n, m, l) for m, l in c.succ[n] if l in ('T', 'F') and (l == 'T') != r]
         continue
-      cut += [(n, m, l) for m, l in c.succ[n] if l in ('T', 'F') and (l == 'T') != v]
+      mentioned = set()
+      for e in r:
+        mentioned |= {x.id for x in ast.walk(e) if isinstance(x, ast.Name)} | {x.attr for x in ast.walk(e) if isinstance(x, ast.Attribute)}
+      if mentioned & env_names:
+        blocked += [(n, m, l) for m, l in c.succ[n] if l in ('T', 'F')]
+  return cut, blocked
+
+
+def reach_env(c, env, flags_func=None):
+  """Reachability from entry under an assumption `env` ({source text or name: bool}) about the values tested.
+
+  Returns (may, must): `may` = nodes reachable when only the edges contradicting env are removed; `must` = nodes reachable
+  when, in addition, tests whose undecided part still talks about the assumed quantities are not crossed at all (tests about
+  unrelated quantities are free: either branch can happen).  A node in `must` is reached in some execution that
+  satisfies the assumption: positive evidence."""
+  cut, blocked = env_edges(c, env, flags_func)
   may = c.reach([c.entry], avoid_edges=cut, include_src=True)
-  must = c.reach([c.entry], avoid_edges=cut + unknown, include_src=True)
+  must = c.reach([c.entry], avoid_edges=cut + blocked, include_src=True)
   return may, must
+
+
+def bypass_under(c, env, target, through, flags_func=None):
+  """Witness path entry -> target that satisfies `env`, crosses only tests that are decided by env or independent of it,
+  and avoids every node of `through`; None if there is none."""
+  cut, blocked = env_edges(c, env, flags_func)
+  if target in c.reach([c.entry], avoid=through, avoid_edges=cut + blocked, include_src=True):
+    return c.witness(c.entry, target, avoid=through, avoid_edges=cut + blocked)
+  return None
 
 
 def _subst_flags(test, func):
@@ -653,3 +702,28 @@ def expr_guard(node, pred, negative=False, func=None):
         return True
     cur = anc
   return False
+
+
+def truthiness_operands(test):
+  """Sub-expressions of a condition that are evaluated for their truth value."""
+  if isinstance(test, ast.BoolOp):
+    for v in test.values:
+      yield from truthiness_operands(v)
+  elif isinstance(test, ast.UnaryOp) and isinstance(test.op, ast.Not):
+    yield from truthiness_operands(test.operand)
+  else:
+    yield test
+
+
+def conditions(func_node):
+  """(condition expression, node) for every if / while / conditional expression / assert / comprehension filter of a function."""
+  for n in ast.walk(func_node):
+    if isinstance(n, (ast.If, ast.While, ast.IfExp)):
+      yield n.test, n
+    elif isinstance(n, ast.Assert):
+      yield n.test, n
+    elif isinstance(n, ast.comprehension):
+      for c in n.ifs:
+        yield c, c
+    elif isinstance(n, ast.BoolOp) and not isinstance(astu.parent(n), (ast.If, ast.While, ast.IfExp, ast.Assert, ast.BoolOp, ast.UnaryOp)):
+      yield n, n   # `a and b` used as a value: operands before the last are tested for truth
